@@ -351,6 +351,18 @@ impl AnnotatedLexer<'_> {
         ))))
     }
 
+    /// The statement read so far, as one token. It stands for an operand
+    /// that is not written in the text (the `ra` of `call f`): what is said
+    /// about such an operand is said about the instruction.
+    fn statement(&self) -> Token {
+        Token::new(
+            TokenType::Symbol(self.raw_token.raw_text()),
+            self.raw_token.raw_text(),
+            self.raw_token.range(),
+            self.raw_token.file(),
+        )
+    }
+
     fn peek_any(&mut self) -> Result<Token, LexError> {
         match self.lexer.peek() {
             Some(item) => item.clone(),
@@ -466,8 +478,8 @@ impl TryFrom<&mut Peekable<Lexer>> for ParserNode {
                                 ))
                             } else if let Ok(name) = next.as_label() {
                                 Ok(ParserNode::new_jump_link(
-                                    With::new(inst, next_node.clone()),
-                                    With::new(Register::X1, next_node),
+                                    With::new(inst, next_node),
+                                    With::new(Register::X1, lex.statement()),
                                     name,
                                     lex.raw_token,
                                 ))
@@ -492,7 +504,7 @@ impl TryFrom<&mut Peekable<Lexer>> for ParserNode {
                             if at_end {
                                 return Ok(ParserNode::new_jump_link_r(
                                     With::new(inst, next_node.clone()),
-                                    With::new(Register::X1, next_node.clone()),
+                                    With::new(Register::X1, lex.statement()),
                                     reg1,
                                     With::new(Imm::new(0), next_node),
                                     lex.raw_token,
@@ -522,8 +534,8 @@ impl TryFrom<&mut Peekable<Lexer>> for ParserNode {
                                     ))
                                 } else {
                                     Ok(ParserNode::new_jump_link_r(
-                                        With::new(inst, next_node.clone()),
-                                        With::new(Register::X1, next_node),
+                                        With::new(inst, next_node),
+                                        With::new(Register::X1, lex.statement()),
                                         reg1,
                                         imm,
                                         lex.raw_token,
@@ -936,7 +948,7 @@ impl TryFrom<&mut Peekable<Lexer>> for ParserNode {
                                 let label = lex.get_label()?;
                                 return Ok(ParserNode::new_jump_link(
                                     With::new(JumpLinkType::Jal, next_node.clone()),
-                                    With::new(Register::X1, next_node.clone()),
+                                    With::new(Register::X1, lex.statement()),
                                     label,
                                     lex.raw_token,
                                 ));
